@@ -58,4 +58,8 @@ PROP_ASSUMPTIONS = {
         "Model/Strings.lean serializer hand-written from ast/serialize.rs (find/split_at loop modelled as per-character flatMap); tied by correspondence",
         "block-form round trip is not proved (stated as block_roundtrip_statement)",
     ],
+    "C05": [
+        "harness/src/gramspec.rs + lexspec.rs are the reference parser (graphql-js is not available offline); they are our transcription of the October-2021 grammar",
+        "parser model as in C01",
+    ],
 }
